@@ -1296,6 +1296,7 @@ namespace detail {
                             case '$':
                                 push_token(resources, token_type(begin_union_arg), ec);
                                 push_token(resources, root_node_arg, ec);
+                                push_token(resources, token_type(resources.new_selector(root_selector<Json,JsonReference>(selector_id++))), ec);
                                 if (JSONCONS_UNLIKELY(ec)) {return path_expression_type(alloc_);}
                                 state_stack_.back() = path_state::union_expression; // union
                                 state_stack_.emplace_back(path_state::relative_location);                                
